@@ -333,7 +333,7 @@ def opG (eng mode seed tok : String) : String :=
 Actions: `n:i:a:b` `n2:i:a:b` `mk:i:a:b` (construct `D_i`), `cc:i:j` `mc:i:j` (copy / move construction), `ca:i:j`
 `ma:i:j` (copy / move assignment; `ca:i:i` is self-assignment), `sw:i:j`, `d:i:n[:tape]` (n draws from `D_i`), `r:i`,
 `p:i:a:b`, `e:i:j` (`==`, `!=`), `q:i` (`min/max/a/b/operator<<`), `v:k:i` `vm:k:i` (variate / `make_variate` from
-`D_i`), `vp:k:a:b`, `vc:k:l`, `va:k:l`, `w:k:n[:tape]` (n draws from `V_k`), `g:n[:tape]` (the generator itself).
+`D_i`), `vp:k:a:b`, `vc:k:l` `vx:k:l` (copy / move construction of a variate), `va:k:l` `vy:k:l` (assignment), `w:k:n[:tape]` (n draws from `V_k`), `g:n[:tape]` (the generator itself).
 Result: `ok` followed by one field per observing action. -/
 
 structure SInst (β δ γ : Type) where
@@ -423,12 +423,15 @@ def parseTok {β : Type} (rd : String → Option β) (okP : β → β → Bool) 
     else if name = "v" ∨ name = "vm" then do
       let k ← slot? varSlots i; let i ← slot? distSlots j
       some ⟨[.varD k i], .none, []⟩
-    else if name = "vc" then do
+    else if name = "vc" ∨ name = "vx" then do
       let k ← slot? varSlots i; let l ← slot? varSlots j
       if k = l then none else some ⟨[.varCopy k l false], .none, []⟩
     else if name = "va" then do
       let k ← slot? varSlots i; let l ← slot? varSlots j
       some ⟨[.varCopy k l true], .none, []⟩
+    else if name = "vy" then do
+      let k ← slot? varSlots i; let l ← slot? varSlots j
+      if k = l then none else some ⟨[.varCopy k l true], .none, []⟩
     else if (name = "d" ∨ name = "w") ∧ !withTape then do
       let i ← slot? (if name = "d" then distSlots else varSlots) i
       let n ← count? j
@@ -540,7 +543,7 @@ def opRS (kind t d eng seed : String) (toks : List String) : String :=
 
 /-! ### container scripts: `XU <c|m> <seed> <elems|-> <act>+`
 
-`f:i` (factory), `k:i:lo:hi` (constructor with an index interval inside the container), `cc:i:j`, `ca:i:j`,
+`f:i` (factory), `k:i:lo:hi` (constructor with an index interval inside the container), `cc:i:j`, `ca:i:j`, `mc:i:j`, `ma:i:j`,
 `d:i:n` (n draws: `element@index`), `w:pos:x` (the program overwrites an element), `t:i:x` (writes through the
 reference a draw returned; mutable container only).  The final container is printed last. -/
 
@@ -557,7 +560,9 @@ def parseCTok (mutable : Bool) (size : Nat) (tok : String) : Option CTok :=
     let i ← slot? 3 i; let lo ← lo.toNat?; let hi ← hi.toNat?
     if lo ≤ hi ∧ hi < size then some ⟨[.ctor i ⟨.base (Int.ofNat lo), .base (Int.ofNat hi)⟩], "k"⟩ else none
   | ["cc", i, j] => do let i ← slot? 3 i; let j ← slot? 3 j; if i = j then none else some ⟨[.copy i j false], "cc"⟩
+  | ["mc", i, j] => do let i ← slot? 3 i; let j ← slot? 3 j; if i = j then none else some ⟨[.copy i j false], "mc"⟩
   | ["ca", i, j] => do let i ← slot? 3 i; let j ← slot? 3 j; some ⟨[.copy i j true], "ca"⟩
+  | ["ma", i, j] => do let i ← slot? 3 i; let j ← slot? 3 j; if i = j then none else some ⟨[.copy i j true], "ma"⟩
   | ["d", i, n] => do let i ← slot? 3 i; let n ← count? n; some ⟨List.replicate n (.draw i), "d"⟩
   | ["w", pos, x] => do let pos ← count? pos; let x ← elem? x; if pos < size then some ⟨[.write pos x], "w"⟩ else none
   | ["t", i, x] => do let i ← slot? 3 i; let x ← elem? x; if mutable then some ⟨[.drawWrite i x], "t"⟩ else none
